@@ -16,11 +16,13 @@ BaseA == <<
   U("TITLE"), <<TTL(1)>>,
   U("OIL"), U("WATER"),
   U("EQLDIMS"), <<I(2), St(1), I(30), SL>>,
-  U("TABDIMS"), <<I(2), SL>>,
+  U("TABDIMS"), <<I(2), I(2), SL>>,
   U("EQUIL"), <<D(1), D(2), I(2100), I(0), D(3), I(0), I(1), St(1), I(0), SL>>,
               <<I(2050), D(2), St(2), I(1950), SL>>,
   U("SWOF"), <<D(4), I(0), I(1), D(5), D(6), D(6), I(0), I(0), SL>>,
              <<D(4), I(0), D(6), I(0), I(1), I(1), I(0), I(0), SL>>,
+  U("PVTO"), <<I(0), D(6), D(10), D(11), SL>>, <<I(50), I(100), D(11), D(5), SL>>, <<I(200), D(10), D(6), SL>>, <<SL>>,
+             <<I(0), D(6), D(11), D(6), I(300), D(10), D(11), SL>>, <<SL>>,
   U("PORO"), <<D(4), D(4), D(4), St(1), St(1), D(5), SL>>,
   U("PERMX"), <<Rp(3, D(7)), D(8), D(8), SL>>,
   U("ACTNUM"), <<I(1), I(1), I(0), I(1), I(1), I(1), SL>>
